@@ -50,11 +50,11 @@ theorem C11_next_consumes (cc : CharClass) (P : Profile) (s : List Char) :
 
 /-- Appendix A fuel convention for the fuelled functions: any fuel ≥ `input.length + 1` gives the
 result of the entry point's fuel. -/
-theorem C11_fuel_mono (cc : CharClass) (P : Profile) (fuel : Nat) (s : List Char)
+theorem C11_fuel_mono (cc : CharClass) (P : Profile) (fuel d : Nat) (s : List Char)
     (h : fuel ≥ s.length + 1) :
-    (∀ acc, argsLoop cc P fuel s acc = argsLoop cc P (s.length + 1) s acc) ∧
-    (∀ acc, argBody cc P fuel s acc = argBody cc P (s.length + 1) s acc) :=
-  ⟨fun acc => argsLoop_fuel_mono cc P fuel s acc h, fun acc => argBody_fuel_mono cc P fuel s acc h⟩
+    (∀ acc, argsLoop cc P fuel d s acc = argsLoop cc P (s.length + 1) d s acc) ∧
+    (∀ acc, argBody cc P fuel d s acc = argBody cc P (s.length + 1) d s acc) :=
+  ⟨fun acc => argsLoop_fuel_mono cc P fuel d s acc h, fun acc => argBody_fuel_mono cc P fuel d s acc h⟩
 
 /-! ## construction never panics -/
 
@@ -265,27 +265,27 @@ theorem C11_error_surfaces_nested (env : Env) (r : Record) (e : List Char) (p : 
 theorem C11_error_kinds_unmatched_close (cc : CharClass) (P : Profile) (r : List Char)
     (h : doubled '}' r = none) :
     next cc P ('}' :: r) = .ok (some (.error cs!"unmatched '}'")) r := by
-  simp [next, nextWith, h, eUnmatchedClose]
+  simp [next, nextAt, nextWith, h, eUnmatchedClose]
 
 /-- a lone `(` outside a formatter -/
 theorem C11_error_kinds_unexpected_open_paren (cc : CharClass) (P : Profile) (r : List Char)
     (h : doubled '(' r = none) :
     next cc P ('(' :: r) = .ok (some (.error cs!"unexpected '('")) r := by
-  simp [next, nextWith, h, eUnexpectedOpenParen]
+  simp [next, nextAt, nextWith, h, eUnexpectedOpenParen]
 
 /-- a lone `)` -/
 theorem C11_error_kinds_unexpected_close_paren (cc : CharClass) (P : Profile) (r : List Char)
     (h : doubled ')' r = none) :
     next cc P (')' :: r) = .ok (some (.error cs!"unexpected ')'")) r := by
-  simp [next, nextWith, h, eUnexpectedCloseParen]
+  simp [next, nextAt, nextWith, h, eUnexpectedCloseParen]
 
 /-- a backslash not followed by one of the five special characters -/
 theorem C11_error_kinds_unexpected_backslash (cc : CharClass) (P : Profile) (r : List Char)
     (h : ∀ d t, r = d :: t → isSpecial d = false) :
     next cc P ('\\' :: r) = .ok (some (.error cs!"unexpected '\\'")) r := by
   cases r with
-  | nil => simp [next, nextWith, eUnexpectedBackslash]
-  | cons d t => simp [next, nextWith, h d t rfl, eUnexpectedBackslash]
+  | nil => simp [next, nextAt, nextWith, eUnexpectedBackslash]
+  | cons d t => simp [next, nextAt, nextWith, h d t rfl, eUnexpectedBackslash]
 
 /-- a formatter that is not followed by `}`: the piece is replaced by the error and the rest of
 the input is swallowed -/
@@ -299,13 +299,23 @@ theorem C11_error_kinds_expected_close (piece : Piece) (s : List Char) (h : ∀ 
     · rfl
   · rfl
 
-/-- an unclosed `(`: `arg()` fails only at the end of the input, with the text `unclosed '('` … -/
-theorem C11_error_kinds_unclosed_paren (cc : CharClass) (P : Profile) (f : Nat) (s : List Char)
-    (acc : List Piece) (e r : List Char) (h : argBody cc P f s acc = .fail e r) :
-    e = cs!"unclosed '('" ∧ r = [] := (args_body_fail cc P f).2 s acc e r h
+/-- an unclosed `(` or an argument nested deeper than `MAX_DEPTH`: `arg()` fails only with nothing
+left of the input — at its end with the text `unclosed '('`, or, at any nesting depth `d`, after
+swallowing the rest with the text `nesting too deep` … -/
+theorem C11_error_kinds_unclosed_paren (cc : CharClass) (P : Profile) (f d : Nat) (s : List Char)
+    (acc : List Piece) (e r : List Char) (h : argBody cc P f d s acc = .fail e r) :
+    (e = cs!"unclosed '('" ∨ e = cs!"nesting too deep") ∧ r = [] := (args_body_fail cc P f).2 d s acc e r h
+
+/-- the limit itself (commit c25fac2): with `MAX_DEPTH` arguments open, one more `(` swallows the
+rest of the input and `args()` fails with `nesting too deep`, whatever follows -/
+theorem C11_error_kinds_nesting_too_deep (cc : CharClass) (P : Profile) (f : Nat) (r : List Char)
+    (acc : List (List Piece)) :
+    argsLoop cc P (f + 1) P.maxDepth ('(' :: r) acc = .fail cs!"nesting too deep" [] := by
+  rw [argsLoop]; simp [eNestingTooDeep]
 
 /-- … and since nothing is left, the `}` is missing too: what the user sees for an unclosed
-parenthesis is `{ERROR: expected '}'}` (the `unclosed '('` text never reaches the output). -/
+parenthesis and for a pattern nested too deep is `{ERROR: expected '}'}` (neither the
+`unclosed '('` nor the `nesting too deep` text ever reaches the output). -/
 theorem C11_error_kinds_unclosed_paren_surfaces (cc : CharClass) (P : Profile)
     (F : List Char → PR (List (List Piece))) (r e : List Char)
     (h : F (name cc P r).2 = .fail e []) :
@@ -457,27 +467,31 @@ theorem C11_invalid_timezone_surfaces_repaired (B : Build) (hB : B.tzWholeArg = 
     simp only [Bool.or_eq_false_iff, decide_eq_false_iff_not] at hz
     exact ⟨eInvalidTimezoneNamed t, by simp [hz.1, hz.2]⟩
 
-/-- MDC without a key, with an empty key, with a formatter inside the key, or with a syntax
-error inside the key (repaired `plain_text`: anywhere in the argument) -/
+/-- MDC without a key, with a formatter inside the key, or with a syntax error inside the key
+(repaired `plain_text`: anywhere in the argument); an EMPTY key was `invalid MDC key` before the
+repair of `C09/mdc-empty-argument` (`mdcEmptyOk = false`) and is the empty string since -/
 theorem C11_error_kinds_mdc_key (B : Build) (hfix : B.mdcWhole = true) (p : Params) :
     compile B (.arg ['X'] [] p) = .error cs!"missing MDC key" ∧
-    compile B (.arg ['X'] [[]] p) = .error cs!"invalid MDC key" ∧
+    (B.mdcEmptyOk = false → compile B (.arg ['X'] [[]] p) = .error cs!"invalid MDC key") ∧
+    (B.mdcEmptyOk = true → compile B (.arg ['X'] [[]] p) = .leaf (.mdc [] []) p) ∧
     (∀ t n a q more, compile B (.arg ['X'] [.text t :: .arg n a q :: more] p) = .error cs!"invalid MDC key") ∧
     (∀ t e more, compile B (.arg ['X'] [.text t :: .error e :: more] p) = .error e) := by
-  refine ⟨?_, ?_, ?_, ?_⟩ <;> intros <;>
+  refine ⟨?_, ?_, ?_, ?_, ?_⟩ <;> intros <;>
     (rw [compile_arg]
-     simp [mdcChunk, groupOfName, leafOfName, leafTable, leafLookup, mdcArgText, hfix, plainTextOf,
-       plainTextLoop, eMissingMdcKey, eInvalidMdcKey])
+     simp [mdcChunk, groupOfName, leafOfName, leafTable, leafLookup, mdcArg, mdcArgText, hfix, plainTextOf,
+       plainTextLoop, eMissingMdcKey, eInvalidMdcKey, *])
 
-/-- MDC with an empty default or a formatter inside the default -/
+/-- MDC with a formatter inside the default; an EMPTY default was `invalid MDC default` before the
+repair of `C09/mdc-empty-argument` and is the empty string since -/
 theorem C11_error_kinds_mdc_default (B : Build) (hfix : B.mdcWhole = true) (k : List Char) (p : Params) :
-    compile B (.arg ['X'] [[.text k], []] p) = .error cs!"invalid MDC default" ∧
+    (B.mdcEmptyOk = false → compile B (.arg ['X'] [[.text k], []] p) = .error cs!"invalid MDC default") ∧
+    (B.mdcEmptyOk = true → compile B (.arg ['X'] [[.text k], []] p) = .leaf (.mdc k []) p) ∧
     (∀ n a q rest, compile B (.arg ['X'] [[.text k], .arg n a q :: rest] p) =
       .error cs!"invalid MDC default") := by
-  refine ⟨?_, ?_⟩ <;> intros <;>
+  refine ⟨?_, ?_, ?_⟩ <;> intros <;>
     (rw [compile_arg]
-     simp [mdcChunk, groupOfName, leafOfName, leafTable, leafLookup, mdcArgText, hfix, plainTextOf,
-       plainTextLoop, eInvalidMdcDefault])
+     simp [mdcChunk, groupOfName, leafOfName, leafTable, leafLookup, mdcArg, mdcArgText, hfix, plainTextOf,
+       plainTextLoop, eInvalidMdcDefault, *])
 
 /-! ## examples (tests on samples, and non-vacuity of the hypotheses) -/
 
